@@ -53,7 +53,7 @@ def _bucket(r):
 def run(c, index, tier):
     ch = c.ch
     seen = set()
-    k = ch.integer("w", 1, 7, "k")
+    k = ch.weighted("w", [(j, 3) for j in range(1, 8)] + [(j, 1) for j in range(8, 14)], "k")  # beyond the default n_clusters=8 too
     n = k + ch.draw("w", 54, "n-k")
     if ch.boolean("w", 0.3, "small-n"):
         n = k + ch.draw("w", 2 * k + 1, "n-small")
